@@ -819,6 +819,13 @@ impl<T> Sender<T> {
                 {
                     let mut internal = acquire_internal(&self.internal);
                     if internal.cancel_send_signal(&sig) {
+                        drop(internal);
+                        // Safety: the signal is removed from the wait list, no
+                        // receiver can take the data anymore, sender should
+                        // drop it if it needs to
+                        if needs_drop::<T>() {
+                            unsafe { data.assume_init_drop() }
+                        }
                         return Err(SendErrorTimeout::Timeout);
                     }
                 }
